@@ -11,49 +11,49 @@ CLAIMS = {
     "C01": (
         "other",
         "def-use classification of every schedule-dependent observation (taint-style non-interference) over MIR; who-may-call; shared reader laws",
-        "Decides clause (ii) of the decomposition: every use of buf_len / buf / buf_ptr / is_at_end outside the reader has a sanctioned shape (fast/cold selector comparison, prefix slice up to a looked-at offset, use after the source was exhausted, end test after a look-ahead at offset 0); parser code calls no schedule-exposing reader method; Interrupted is retried inside request_more without touching state; position and mark are conserved by refills (C02 laws, re-run here). That the fast and cold implementations compute the same function is C13 / value-level; faithfulness of the window is C02. R5 (shared with C13-R3/R4): the byte-wise scanners' exact behaviour and the fast-path hand-over, since input that arrives in pieces takes the byte-wise path. R6: the byte-wise keyword scan is a prefix scan like the word kernel - on its iteration graph, after an iteration that recorded no letter no later one can record one (the stop flag is followed as a constant through the variables the closure captured).",
+        "Decides clause (ii) of the decomposition: every use of buf_len / buf / buf_ptr / is_at_end outside the reader has a sanctioned shape (fast/cold selector comparison, prefix slice up to a looked-at offset, use after the source was exhausted, end test after a look-ahead at offset 0); parser code calls no schedule-exposing reader method; Interrupted is retried inside request_more without touching state; position and mark are conserved by refills (C02 laws, re-run here). That the fast and cold implementations compute the same function is C13 / value-level; faithfulness of the window is C02. R5 (shared with C13-R3/R4): the byte-wise scanners' exact behaviour and the fast-path hand-over, since input that arrives in pieces takes the byte-wise path. R6: the byte-wise keyword scan is a prefix scan like the word kernel - on its iteration graph, after an iteration that recorded no letter no later one can record one (the stop flag is followed as a constant through the variables the closure captured). R3 also: an Interrupted answer always leads back to the read (nothing else is reachable from the true edge of the kind test).",
         "DESIGN.md §4 C01",
     ),
     "C02": (
         "other",
         "affine symbolic path execution over MIR (Karr-style linear equalities, no solver), guard dominance, field-store inventory",
-        "Decides that every reader method that writes a bookkeeping field preserves the laws the operation histories compose: position/mark conservation (advance by +n only; request_more and realignment leave both unchanged), window moved with exactly its bytes to offset 0, read results appended at the window end into a slice of exactly chunk_size behind n <= chunk_size, shrink keeps the window, complete/io_error set exactly on Ok(0)/non-Interrupted Err, from_buf_reader chains buffered bytes first. Content equality as such and std's Vec/slice semantics are trusted, not decided. R7: every observer (request_byte_at_offset, its cold path, buf, buf_ptr) indexes the buffer with the cursor as it is at that moment, also after a refill inside the same call. R8 (shared with C09-R1): requests fall short only at the end of the source or on an error (single read site, Interrupted retried in place). R4 also: the buffer is changed (length or contents) in request_more only - a mutable borrow of `buf` elsewhere may only feed len/capacity/reserve/shrink_to_fit.",
+        "Decides that every reader method that writes a bookkeeping field preserves the laws the operation histories compose: position/mark conservation (advance by +n only; request_more and realignment leave both unchanged), window moved with exactly its bytes to offset 0, read results appended at the window end into a slice of exactly chunk_size behind n <= chunk_size, shrink keeps the window, complete/io_error set exactly on Ok(0)/non-Interrupted Err, from_buf_reader chains buffered bytes first. Content equality as such and std's Vec/slice semantics are trusted, not decided. R7: every observer (request_byte_at_offset, its cold path, buf, buf_ptr) indexes the buffer with the cursor as it is at that moment, also after a refill inside the same call. R8 (shared with C09-R1): requests fall short only at the end of the source or on an error (single read site, Interrupted retried in place). R4 also: the buffer is changed (length or contents) in request_more only - a mutable borrow of `buf` elsewhere may only feed len/capacity/reserve/shrink_to_fit. R9: every chunk size the library itself installs has a provable lower bound >= 1 (a read into an empty slice answers Ok(0)); the public setter's parameter is the caller's obligation, as in the property's quantifier.",
         "DESIGN.md §4 C02",
     ),
     "C03": (
         "other",
         "constant-table extraction from MIR (variant->constant matches, string-match chains, closure capture resolution) and writer/reader table comparison",
-        "Round-trip equality of arbitrary values is value-level and not decided. Decided is the necessary clause that the writer's and the reader's tables agree: the BTOR2 keyword relation is the same bijection on both sides and covers all 70 variants (incl. the token translation tables), the constant validators accept exactly the scanners' character classes, AIGER symbol prefixes/targets/index limits agree in both files, the varint reader accepts every length the writer emits, header field order and optional tail, latch reset forms, DIMACS framing words. R2 is position-sensitive where the validator is a chars() loop: the validator's automaton (with its boolean flag states) must be included in the language the scanner consumes. R4b: the varint writer's continuation-bit protocol. R10: free text (symbol names, comments, constants) is handed out verbatim - identity conversions only on what advance_with_buf returns, and only the terminator byte is cut off.",
+        "Round-trip equality of arbitrary values is value-level and not decided. Decided is the necessary clause that the writer's and the reader's tables agree: the BTOR2 keyword relation is the same bijection on both sides and covers all 70 variants (incl. the token translation tables), the constant validators accept exactly the scanners' character classes, AIGER symbol prefixes/targets/index limits agree in both files, the varint reader accepts every length the writer emits, header field order and optional tail, latch reset forms, DIMACS framing words. R2 is position-sensitive where the validator is a chars() loop: the validator's automaton (with its boolean flag states) must be included in the language the scanner consumes. R4b: the varint writer's continuation-bit protocol. R10: free text (symbol names, comments, constants) is handed out verbatim - identity conversions only on what advance_with_buf returns, and only the terminator byte is cut off. R5b: only a suffix of zero counts is left out of the AIGER header (zero tests decide from the back). R11: the whole-file AIGER writers work through the circuit's fields in the order in which the parsers fill them, and every header count is taken from the field of the same name. R12: fields of a struct or variant are written in the order in which they are parsed (token-call order vs. emitting-call order, per struct/variant). R13: binary and gates - writer and reader chain the two deltas the same way and step the running code by 2. R14: BTOR2 placeholders (constants, justice conditions, symbol) are pointed at the buffer the parser filled for them. R15 (shared with C10-R1): per-item buffers are cleared before they are filled.",
         "DESIGN.md §4 C03",
     ),
     "C04": (
         "other",
         "interprocedural typestate analysis over MIR (path-sensitive abstract interpretation with summaries)",
-        "Decides on every path of every public parser function: no success return rests on an end-of-input look-ahead answer unless the parked I/O error was consulted afterwards; plus who-may-construct SyntaxError, the eof tokens and no-dropped-error rules. It decides this clause, not item equality with the fault-free run. Raising an error takes the parked I/O error out of the reader: no success return may follow a give_up* event or the Err edge of check_io_error (typestate state R). R5 (shared with C02-R5): every read error other than Interrupted is parked whatever its kind; only Ok(0) is a clean end.",
+        "Decides on every path of every public parser function: no success return rests on an end-of-input look-ahead answer unless the parked I/O error was consulted afterwards; plus who-may-construct SyntaxError, the eof tokens and no-dropped-error rules. It decides this clause, not item equality with the fault-free run. Raising an error takes the parked I/O error out of the reader: no success return may follow a give_up* event or the Err edge of check_io_error (typestate state R). R5 (shared with C02-R5): every read error other than Interrupted is parked whatever its kind; only Ok(0) is a clean end. R6 (shared with C05-R7): a token that reports a match has moved the cursor, so no loop can spin in front of a parked error.",
         "DESIGN.md §4 C04",
     ),
     "C05": (
         "other",
         "instance call-graph SCC analysis; taint analysis of declared numbers with guard-dominance discharge; allocation-size taint; loop progress rule; panic-site inventory with discharge classes",
-        "Decides: the workspace's instance call graph is acyclic (bounded stack); every overflow/division assert and every subtraction in parser-reachable code either has only measures of consumed input as operands or is discharged by a dominating guard, a bounded-result callee, or a listed bound; no allocation is sized by a declared number; every loop has a progress statement on every cycle; every panic-capable construct (unwrap, indexing, advance, explicit panic) is discharged by a class (scanned offsets, digits, pop-after-push, ...) or listed. Wall time, heap constants, allocator aborts and termination of Renumber::transfer on cyclic graphs are not decided. R7: a token function reports a match only after the cursor moved by a provably positive amount, so the parsers' loops over alternatives cannot spin. R2 also enumerates the integer methods of std that trap like the operators (abs, pow, neg, ...): none takes a declared number.",
+        "Decides: the workspace's instance call graph is acyclic (bounded stack); every overflow/division assert and every subtraction in parser-reachable code either has only measures of consumed input as operands or is discharged by a dominating guard, a bounded-result callee, or a listed bound; no allocation is sized by a declared number; every loop has a progress statement on every cycle; every panic-capable construct (unwrap, indexing, advance, explicit panic) is discharged by a class (scanned offsets, digits, pop-after-push, ...) or listed. Wall time, heap constants, allocator aborts and termination of Renumber::transfer on cyclic graphs are not decided. R7: a token function reports a match only after the cursor moved by a provably positive amount, so the parsers' loops over alternatives cannot spin. R2 also enumerates the integer methods of std that trap like the operators (abs, pow, neg, ...): none takes a declared number. R4: the listed reason for NonZeroU64::new(..).unwrap() is checked (digits parser unreachable from the edge on which the look-ahead primitive answered '0'); added assertions are discharged by an interval evaluator that knows dominating comparisons, return-value joins of workspace functions and byte classes.",
         "DESIGN.md §4 C05",
     ),
     "C06": (
         "other",
         "guard-dominance, def-use and control-dependence rules over MIR; affine path execution of the header bound chain; frozen oracle tables for defining positions and section counters",
-        "Numeric exactness of the decimal conversion is C13's subject. Decided: every limit the property names is installed from the right source and dominates every hand-out or narrowing: from_dimacs only behind (-limit..=limit).contains, from_code only on codes checked by lit/delta_code, lossy casts listed with their bound; DIMACS limits installed exactly when the header asks and consulted at clause attempt / clean end; AIGER max_lit = 2M+1 everywhere, defining positions, header remainder chain, section counters; inclusive operators; literal type maxima. R1 for loop variables: every assignment of the converted variable passes a range test before it can reach from_dimacs. R9 (shared with C13-R1b/R4): decimal scanning yields the exact value or None.",
+        "Numeric exactness of the decimal conversion is C13's subject. Decided: every limit the property names is installed from the right source and dominates every hand-out or narrowing: from_dimacs only behind (-limit..=limit).contains, from_code only on codes checked by lit/delta_code, lossy casts listed with their bound; DIMACS limits installed exactly when the header asks and consulted at clause attempt / clean end; AIGER max_lit = 2M+1 everywhere, defining positions, header remainder chain, section counters; inclusive operators; literal type maxima. R1 for loop variables: every assignment of the converted variable passes a range test before it can reach from_dimacs. R9 (shared with C13-R1b/R4): decimal scanning yields the exact value or None. R10: a justice literal is filed under property i only behind the test that property i holds fewer than its declared number, for the current i.",
         "DESIGN.md §4 C06",
     ),
     "C07": (
         "other",
         "interprocedural typestate analysis over MIR (blank-normal form of the cursor, path-sensitive abstract interpretation with summaries); exact byte-class extraction for the end-of-word test; CFG loop / dominance rules and sibling cross-check for the statement dispatch",
-        "Equality of the values parsed from two renderings of one formula is a runtime relation and is not decided. Decided are the structural necessary conditions the layout freedoms rest on: (1) on every path from every cnf/wcnf/gcnf/solver-log entry point, a token parser that decides on the byte at the cursor is attempted only when the cursor cannot stand on a space or tab (everything consumed was consumed together with its trailing blanks, or skip_whitespace ran) - any amount of blanks between tokens, at line ends and at line starts; (2) a word ends exactly before space, tab, CR, LF or end of input; (3) in all three statement loops and header prologues comment lines and blank lines are alternatives whose success continues the loop, identically in the three siblings; (4) every required line end is `newline or end of input`; (5) inside a clause, and between weight/group and literals, the line-break-and-comments skipper is tried before an error is raised, and it loops over comments and newlines. LF/CRLF is text::newline's class (C16-R3); numeral spelling (leading zeros, -0) is value-level (C13). R7: a scan that starts at a constant offset K > 0 steps over examined bytes only - each matched against a byte other than a line feed on the way, nothing consumed in between.",
+        "Equality of the values parsed from two renderings of one formula is a runtime relation and is not decided. Decided are the structural necessary conditions the layout freedoms rest on: (1) on every path from every cnf/wcnf/gcnf/solver-log entry point, a token parser that decides on the byte at the cursor is attempted only when the cursor cannot stand on a space or tab (everything consumed was consumed together with its trailing blanks, or skip_whitespace ran) - any amount of blanks between tokens, at line ends and at line starts; (2) a word ends exactly before space, tab, CR, LF or end of input; (3) in all three statement loops and header prologues comment lines and blank lines are alternatives whose success continues the loop, identically in the three siblings; (4) every required line end is `newline or end of input`; (5) inside a clause, and between weight/group and literals, the line-break-and-comments skipper is tried before an error is raised, and it loops over comments and newlines. LF/CRLF is text::newline's class (C16-R3); numeral spelling (leading zeros, -0) is value-level (C13). R7: a scan that starts at a constant offset K > 0 steps over examined bytes only - each matched against a byte other than a line feed on the way, nothing consumed in between. R8 (shared with C08-R1): errors for tokens on a continuation line are located from a mark set on that line.",
         "DESIGN.md §13",
     ),
     "C08": (
         "other",
         "interprocedural typestate analysis (mark set/unset) plus per-function path rules with affine offset matching over MIR",
-        "Decides how the three pieces of location state are maintained on every path to an error: mark() only after set_mark() on the current line (all API roots, all call paths), line_start never ahead of the cursor when an error can be raised or a token returns, every matched-and-consumed line feed is counted, errors raised only at the cursor or the mark, column formula. It does not decide that the column lies on the token for errors raised at the cursor after partial look-ahead, nor message text. R3 also: a whole line skipped with next_newline is counted with the same offset, and the line start is only set after the cursor moved when it moved by exactly the line feed. R6: a token whose error is located by its caller (error type other than ParseError) commits the error with the cursor still on the token (typestate: no advance on a path returning Res(Err)).",
+        "Decides how the three pieces of location state are maintained on every path to an error: mark() only after set_mark() on the current line (all API roots, all call paths), line_start never ahead of the cursor when an error can be raised or a token returns, every matched-and-consumed line feed is counted, errors raised only at the cursor or the mark, column formula. It does not decide that the column lies on the token for errors raised at the cursor after partial look-ahead, nor message text. R3 also: a whole line skipped with next_newline is counted with the same offset, and the line start is only set after the cursor moved when it moved by exactly the line feed. R6: a token whose error is located by its caller (error type other than ParseError) commits the error with the cursor still on the token (typestate: no advance on a path returning Res(Err)). R7: once a token function consumed the token it marked, it raises errors at the mark, not at the cursor (typestate per token function).",
         "DESIGN.md §4 C08",
     ),
     "C09": (
@@ -65,7 +65,7 @@ CLAIMS = {
     "C10": (
         "other",
         "dominance rules over MIR (buffer reset discipline on the def-level call graph; guard extraction on the reader's compaction code); interprocedural typestate analysis (line ends looked at beyond the cursor)",
-        "The heap bound itself is a runtime quantity and is not decided. Decided are necessary structural conditions: every growth of a buffer that outlives the call, in code reachable from a streaming parser entry point, is dominated by a clear() of the same buffer; compaction in request_more is decided on live operands, moves the window to offset 0 and the buffer only grows when window + chunk does not fit. (Allocation sized by declared counts is C05-R5.) Also decided (R3, typestate over all token functions and streaming entry points): no second line end is looked at before the cursor moved past the first, so the look-ahead window - which the reader must keep - stays within one line (plus the AIGER comment section, one item by definition). R4 (shared with C05-R5): no allocation or reservation sized by a declared number. R1 treats every growing method of every std collection alike (push/insert/extend/entry/... on Vec, String, VecDeque, HashMap, HashSet, BTree*).",
+        "The heap bound itself is a runtime quantity and is not decided. Decided are necessary structural conditions: every growth of a buffer that outlives the call, in code reachable from a streaming parser entry point, is dominated by a clear() of the same buffer; compaction in request_more is decided on live operands, moves the window to offset 0 and the buffer only grows when window + chunk does not fit. (Allocation sized by declared counts is C05-R5.) Also decided (R3, typestate over all token functions and streaming entry points): no second line end is looked at before the cursor moved past the first, so the look-ahead window - which the reader must keep - stays within one line (plus the AIGER comment section, one item by definition). R4 (shared with C05-R5): no allocation or reservation sized by a declared number. R1 treats every growing method of every std collection alike (push/insert/extend/entry/... on Vec, String, VecDeque, HashMap, HashSet, BTree*). R5 (shared with C05-R1): no recursion - the stack does not grow with the number of items. R6: look-ahead loops at a varying offset live in the token functions only; parser-level loops consume as they go.",
         "DESIGN.md §4 C10",
     ),
     "C11": (
@@ -77,7 +77,7 @@ CLAIMS = {
     "C12": (
         "other",
         "call-graph SCC check, def-use provenance of map keys vs. redefinition tests (sibling agreement), guard/dominance and expression-shape rules over MIR",
-        "Functional equivalence of the renumbered circuit (all circuits, all assignments, all option combinations) is value-level and NOT decided; neither are the const-fold case analysis, hash-consing or completeness of the cycle detection. Decided structural necessary conditions: no recursion (explicit stack), every kind of literal used as a key of the renumbering map passes a redefinition test yielding LitAlreadyDefined, every error variant has a producer on the right path and is propagated with `?`, inputs sorted (descending) before a gate is hashed or pushed, a fresh code before every pushed gate, inputs < latches < gates numbering order, LitMap/transfer polarity xor discipline. R5/R6 additionally decide that the literal handed back from the gate arm is the stored literal xor the polarity difference, and that every constant fold is an identity of AND on every decision path (conditions evaluated over the six representative codes). R7: source-circuit literals and renumbered literals (same type) are never compared or used in each other's place (flow-sensitive numbering tags). R8: the definition table is keyed by literals as written and every question to it covers both polarities (key-expression classes: plain / flipped / normalised).",
+        "Functional equivalence of the renumbered circuit (all circuits, all assignments, all option combinations) is value-level and NOT decided; neither are the const-fold case analysis, hash-consing or completeness of the cycle detection. Decided structural necessary conditions: no recursion (explicit stack), every kind of literal used as a key of the renumbering map passes a redefinition test yielding LitAlreadyDefined, every error variant has a producer on the right path and is propagated with `?`, inputs sorted (descending) before a gate is hashed or pushed, a fresh code before every pushed gate, inputs < latches < gates numbering order, LitMap/transfer polarity xor discipline. R5/R6 additionally decide that the literal handed back from the gate arm is the stored literal xor the polarity difference, and that every constant fold is an identity of AND on every decision path (conditions evaluated over the six representative codes). R7: source-circuit literals and renumbered literals (same type) are never compared or used in each other's place (flow-sensitive numbering tags). R8: the definition table is keyed by literals as written and every question to it covers both polarities (key-expression classes: plain / flipped / normalised). R9: literals are compared for identity only with literals of the same kind (requested literal vs. a definition's output as written).",
         "DESIGN.md §4 C12",
     ),
     "C13": (
@@ -89,7 +89,7 @@ CLAIMS = {
     "C14": (
         "other",
         "unsafe-operation inventory over MIR with guard-dominance patterns per class, field confinement, wrap-before-check rule",
-        "Every operation that needs `unsafe` in the workspace (27 today) is classified and must satisfy its class's guard pattern (dominating comparison with the same operands, invariant window, validated or ASCII-class bytes); unknown classes are violations. Trusted fields are private and confined; unchecked advancing is `unsafe fn`; no possibly wrapped value is stored into a trusted field before the check that panics; an untrusted Read cannot enlarge the window. UB inside std/itoap, aliasing models and the SWAR kernels' byte classes are not decided. R3 also: advance(n) writes no trusted field before the test that may panic.",
+        "Every operation that needs `unsafe` in the workspace (27 today) is classified and must satisfy its class's guard pattern (dominating comparison with the same operands, invariant window, validated or ASCII-class bytes); unknown classes are violations. Trusted fields are private and confined; unchecked advancing is `unsafe fn`; no possibly wrapped value is stored into a trusted field before the check that panics; an untrusted Read cannot enlarge the window. UB inside std/itoap, aliasing models and the SWAR kernels' byte classes are not decided. R3 also: advance(n) writes no trusted field before the test that may panic. R5 (shared with C02-R4): the buffer is shortened only in request_more, behind the guard that keeps the window inside it.",
         "DESIGN.md §4 C14",
     ),
     "C15": (
@@ -101,7 +101,7 @@ CLAIMS = {
     "C16": (
         "proof",
         "exhaustive abstract interpretation of MIR over (offset label, byte class), behaviour transition systems compared with generated specifications; call-graph effect confinement",
-        "For tabs_or_spaces, newline, next_newline and fixed the transition system (look-ahead offset, 256-bit byte class incl. end-of-input on every edge, returned offset) is extracted from MIR for entry offsets 0 and 1 (patterns '', 'a', 'ab', 'aa' for fixed) and must equal the documented behaviour exactly, including the absence of any look-ahead the documentation does not require; plus who-may-call confinement (no advance/mark/line effects reachable). Offsets above 3 are tracked as a lower bound only. R6 (shared with C02-R3/R4/R7): the look-ahead primitive the helpers see the input through answers from a faithful window (reads appended at the window end, shrinking keeps the window, observers index at the current cursor).",
+        "For tabs_or_spaces, newline, next_newline and fixed the transition system (look-ahead offset, 256-bit byte class incl. end-of-input on every edge, returned offset) is extracted from MIR for entry offsets 0 and 1 (patterns '', 'a', 'ab', 'aa' for fixed) and must equal the documented behaviour exactly, including the absence of any look-ahead the documentation does not require; plus who-may-call confinement (no advance/mark/line effects reachable). Offsets above 3 are tracked as a lower bound only. R6 (shared with C02-R3/R4/R7): the look-ahead primitive the helpers see the input through answers from a faithful window (reads appended at the window end, shrinking keeps the window, observers index at the current cursor). Also C02-R6: a reader built from a BufReader reads on from the inner source, not through the BufReader.",
         "DESIGN.md §4 C16",
     ),
 }
